@@ -1331,7 +1331,19 @@ func extReggenSetSeed(in *Interp, fn *ssa.Function, args []Value) Value {
 
 func extReggenGenerate(in *Interp, fn *ssa.Function, args []Value) Value {
 	g := in.reggens[args[0].(*Value)]
-	return Str{S: g.Generate(in.intArg(args[1], "reggen-limit"))}
+	limit := in.intArg(args[1], "reggen-limit")
+	var out string
+	var pv interface{}
+	func() {
+		// the library panics on patterns it cannot serve (math/rand: "invalid argument to Intn"):
+		// the panic belongs to the interpreted program, which may recover it
+		defer func() { pv = recover() }()
+		out = g.Generate(limit)
+	}()
+	if pv != nil {
+		panic(goPanic{v: Iface{T: types.Typ[types.String], V: Str{S: fmt.Sprint(pv)}}, site: in.site(), stack: in.stack()})
+	}
+	return Str{S: out}
 }
 
 // sort.Slice / sort.SliceStable: stable insertion sort driving the interpreted less function.
